@@ -13,6 +13,7 @@ pub mod c10;
 pub mod c11;
 pub mod c12;
 pub mod c13;
+pub mod c14;
 pub mod c15;
 pub mod c16;
 pub mod c17;
@@ -34,6 +35,7 @@ pub fn run(ctx: &Ctx) -> i32 {
         "C11" => c11::run(ctx),
         "C12" => c12::run(ctx),
         "C13" => c13::run(ctx),
+        "C14" => c14::run(ctx),
         "C15" => c15::run(ctx),
         "C16" => c16::run(ctx),
         "C17" => c17::run(ctx),
@@ -72,6 +74,7 @@ pub fn replay(ctx: &Ctx, path: &str) -> i32 {
         "C11" => c11::replay(ctx, &body),
         "C12" => c12::replay(ctx, &body),
         "C13" => c13::replay(ctx, &body),
+        "C14" => c14::replay(ctx, &body),
         "C15" => c15::replay(ctx, &body),
         "C16" => c16::replay(ctx, &body),
         "C17" => c17::replay(ctx, &body),
